@@ -32,12 +32,19 @@ import (
 type Case struct {
 	K    string `json:"k"`
 	Seed uint64 `json:"seed"`
+	Do   *doX   `json:"do,omitempty"` // enumerated decision tables (xtable.go)
+	Mu   *muX   `json:"mu,omitempty"`
 }
 
 var kindsFlag = flag.String("kinds", "endpoint,enc,slots,shards,table,do,multi", "case kinds to generate")
 var propFlag = flag.String("prop", "C19", "which property's direct oracle is evaluated: C19 | C20 | C28")
 
+var enumFlag = flag.Bool("enum", true, "run the enumerated decision tables (xtable.go) before the random cases")
+
 func genCase(r *gen.Rand, i int) any {
+	if xs := xTable(); *enumFlag && i < len(xs) {
+		return xs[i]
+	}
 	ks := strings.Split(*kindsFlag, ",")
 	return Case{K: gen.Pick(r, ks), Seed: r.U64() ^ ro.SeedMix()}
 }
@@ -560,10 +567,17 @@ func runDoOnce(c Case, try int) (res obs.Result, raced bool) {
 	if scaleOut {
 		version, spare = "7.2.4", true
 	}
+	x := c.Do
+	if x != nil {
+		version, nprim, spare, scaleOut = "7.2.4", 3, true, false
+	}
 	l := newLive(r, version, nprim, spare)
 	slot := r.Intn(16384)
 	key := "{" + fc.TagFor(slot) + "}k"
 	write := r.Chance(1, 2)
+	if x != nil {
+		write = x.Write
+	}
 	argv := []string{"GET", key}
 	if write {
 		argv = []string{"SET", key, "v"}
@@ -585,6 +599,9 @@ func runDoOnce(c Case, try int) (res obs.Result, raced bool) {
 	maxRedir := gen.Pick(r, []int{0, 0, 1, 2, 3})
 	disableRetry := r.Chance(1, 4)
 	delays := genDelays(r)
+	if x != nil {
+		migr, maxRedir, disableRetry, delays = x.Migr, x.Max, false, []int64{0, 0, 0}
+	}
 	dlog := &ro.ConsultLog{}
 	cli, err := rueidis.NewClient(rueidis.ClientOption{InitAddress: []string{l.prims[0]}, DialCtxFn: l.cl.Dial, DisableCache: true, PipelineMultiplex: -1,
 		DisableRetry: disableRetry, RetryDelay: delayFn(delays, dlog, l.cl), ClusterOption: rueidis.ClusterOption{MaxMovedRedirections: maxRedir}})
@@ -595,6 +612,14 @@ func runDoOnce(c Case, try int) (res obs.Result, raced bool) {
 	defer cli.Close()
 	topos := l.cl.Topos()
 	given := topos[len(topos)-1].Owner
+	if x != nil {
+		steps = doXSteps(x, l, nprim, given[slot])
+		if x.First == "ASK" && x.Next == "" {
+			// a real migration instead of a scripted reply: the target is importing the slot and serves it under ASKING
+			l.cl.StartMigration(slot, steps[0].Addr)
+			steps = nil
+		}
+	}
 	// the world moves on after the client learnt the topology
 	other := l.prims[(r.Intn(nprim-1)+1+indexOf(l.prims, given[slot]))%nprim]
 	switch migr {
@@ -661,6 +686,10 @@ func runDoOnce(c Case, try int) (res obs.Result, raced bool) {
 	res.Coq = obs.App("CDo", obs.Z(int64(maxRedir)), obs.Bool(!disableRetry), zlist(delays), obs.Z(int64(slot)), obs.Bool(!write),
 		ro.OptAddr(w0), ro.Addrs(known), obs.List(env), obs.List(sends), final.Coq(), ro.OptAddr(wAfter))
 	res.Sig = fmt.Sprint("do", version, nprim, write, stepsDesc(steps), migr, maxRedir, disableRetry, delays, given[slot] == w0)
+	if x != nil {
+		res.Kind = "do-x"
+		res.Sig = fmt.Sprint("do-x", *x)
+	}
 	res.Nontrivial = len(arr) > 1
 	res.Obs = map[string]any{"sends": obsSends, "final": final.String(), "steps": stepsDesc(steps), "migr": migr, "max": maxRedir, "retry": !disableRetry, "delays": delays, "delaycalls": dlog.Calls(), "w0": w0, "wafter": wAfter, "second": secondDesc(arr2)}
 	res.Site = "cluster.go:do"
